@@ -368,3 +368,49 @@ def sends_guarded_by_first_relevant(facts, body, add, rule):
             "a DATA/DATA_FRAG for change %s can be sent to a proxy regardless of its first relevant sample (history leaks to VOLATILE late joiners)" % fc.show(recv)[:120],
             t.line)
     return n
+
+
+def periodic_heartbeat_solicits_ack(facts, rep, rule):
+    """A reliable writer's periodic heartbeat (sent while changes are unacknowledged) must be non-final,
+    and the reader must answer every non-final heartbeat: otherwise a lost ACKNACK is never repeated and
+    the writer waits for ever although every sample was delivered."""
+    b = facts.fn("RtpsReaderProxy", "write_message_reliable")
+    fc = FnCtx(b)
+    target = facts.fn("HeartbeatMachine", "generate_new_heartbeat")
+    idx = None
+    for nm, p in target.mir.names:
+        if nm == "final_flag" and p.is_local() and target.mir.is_arg(p.local):
+            idx = p.local - 1
+    n = 0
+    if idx is None:
+        rep.add(rule, target.sname, "generate_new_heartbeat has a final_flag parameter", False, "parameter not found", target.loc())
+        return 0
+    g = fc.guards(lambda ce: "true" if E.is_call(E.strip_casts(ce.expr), "HeartbeatMachine::is_time_for_heartbeat") else None)
+    for bb, t in fc.calls("HeartbeatMachine::generate_new_heartbeat"):
+        if g and fc.only_through([bb], g):
+            n += 1
+            a = fc.arg(t, idx)
+            rep.add(rule, b.sname, "periodic heartbeat is sent with final_flag = false", a == ("const", 0),
+                    "periodic heartbeat has final_flag %s: a reader that has everything stays silent, so a lost ACKNACK is never repeated" % fc.show(a),
+                    b.loc(t.line))
+    # reader side: must_send_acknacks is true whenever the heartbeat is not final
+    h = facts.fn("DcpsDomainParticipant", "handle_heartbeat_submessage")
+    hf = FnCtx(h)
+    nonfinal = hf.guards(lambda ce: "false" if E.is_call(E.strip_casts(ce.expr), "HeartbeatSubmessage::final_flag") else None)
+    for bb, t in hf.calls("RtpsWriterProxy::set_must_send_acknacks"):
+        n += 1
+        a = t.args[1]
+        ok = False
+        if a.place is not None:
+            # follow copies to the boolean variable
+            e = hf.eb.operand(a)
+            if e[0] == "local":
+                for d in hf.mir.whole_defs(e[1]):
+                    de = hf._def_expr(d)
+                    if de == ("const", 1) and nonfinal and hf.only_through([d[1]], nonfinal):
+                        ok = True
+            elif e[0] == "un" and e[1] == "Not" and E.is_call(e[2], "HeartbeatSubmessage::final_flag"):
+                ok = True
+        rep.add(rule, h.sname, "a non-final heartbeat always sets must_send_acknacks", ok,
+                "must_send_acknacks is not forced to true on the final_flag()==false edge", h.loc(t.line))
+    return n
